@@ -26,6 +26,7 @@ use crate::xtrace::print;
 use crate::xtrace::trace_fields;
 use either::Either;
 use futures_util::future::{Either as SelectResult, select};
+use futures_util::poll;
 use std::ops::ControlFlow::{Break, Continue};
 use std::pin::pin;
 use yash_env::Env;
@@ -124,7 +125,13 @@ pub async fn execute_builtin<S: Runtime + 'static>(
             // These futures live only in this inner scope so that the borrow
             // of `caught` and `env` ends before they are used again below.
             match select(builtin_fut, sigint_fut).await {
-                SelectResult::Left((result, _sigint_fut)) => Some(result),
+                SelectResult::Left((result, mut sigint_fut)) => {
+                    // The built-in may have finished in the same turn in which
+                    // signals were caught. Poll once more so that they are not
+                    // lost with the dropped future.
+                    _ = poll!(&mut sigint_fut);
+                    Some(result)
+                }
                 SelectResult::Right(((), _builtin_fut)) => None,
             }
         };
